@@ -225,6 +225,8 @@ pub fn c08_families(tier: &str) -> Vec<Family> {
         }
         v.push(fam(US, 4, "w12", &ORD_ONE));
         v.push(fam(US, 4, "u", &ORD_ONE));
+        v.push(fam(DS, 4, "u", &ORD_ONE));
+        v.push(fam(UM, 3, "w12", &ORD_ONE));
     } else {
         for n in 0..=3 {
             for k in kinds_all() {
